@@ -187,6 +187,10 @@ func (e *Env) RUniqueNames() {
 			kid, okK := ix.Index.(*ast.Ident)
 			if okK && c.ObjOf(kid) == chosen && findAlias.Pos() <= as.Pos() && as.End() <= findAlias.End() {
 				ok = true
+			} else if okK && firstResultOf(info, c, fd, findObj, c.ObjOf(kid)) {
+				ok = true // inserted by the caller, from the first result of the findAlias call
+			} else if lit, isLit := schema.StringLit(ix.Index); isLit && lit == "" {
+				// the empty name of dot/blank imports: never a candidate of findAlias
 			} else {
 				detail = "set " + setExpr + " is filled with " + c.ExprStr(ix.Index) + ", not with the name that is returned"
 			}
@@ -239,6 +243,35 @@ func (e *Env) RAliasFlow() {
 					a0 = c.ExprStr(call.Args[0])
 				}
 				pairOK = l0 == "r.packageNames["+a0+"]" && l1 == "aliases["+a0+"]"
+				if !pairOK {
+					// through two locals: n, a := findAlias(p, …); r.packageNames[p], aliases[p] = n, a
+					id0, ok0 := as.Lhs[0].(*ast.Ident)
+					id1, ok1 := as.Lhs[1].(*ast.Ident)
+					if ok0 && ok1 {
+						o0, o1 := c.ObjOf(id0), c.ObjOf(id1)
+						s0, s1 := false, false
+						ast.Inspect(fd.Body, func(m ast.Node) bool {
+							st, ok := m.(*ast.AssignStmt)
+							if !ok || len(st.Lhs) != len(st.Rhs) {
+								return true
+							}
+							for i, l := range st.Lhs {
+								rid, ok := st.Rhs[i].(*ast.Ident)
+								if !ok {
+									continue
+								}
+								if c.ExprStr(l) == "r.packageNames["+a0+"]" && c.ObjOf(rid) == o0 {
+									s0 = true
+								}
+								if c.ExprStr(l) == "aliases["+a0+"]" && c.ObjOf(rid) == o1 {
+									s1 = true
+								}
+							}
+							return true
+						})
+						pairOK = s0 && s1
+					}
+				}
 			}
 		}
 		return true
@@ -812,29 +845,45 @@ func (e *Env) RResolverClauses() {
 	fdI := load.FuncDecl(pkgG, "DecoratorResolver", "imports")
 	dotTied := false
 	if fdI != nil {
+		// the function itself and the same-package helpers it calls
+		scan := []ast.Node{fdI.Body}
 		ast.Inspect(fdI.Body, func(n ast.Node) bool {
-			var body []ast.Stmt
-			switch x := n.(type) {
-			case *ast.CaseClause:
-				for _, v := range x.List {
-					if lit, ok := schema.StringLit(v); ok && lit == "." {
-						body = x.Body
+			if call, ok := n.(*ast.CallExpr); ok {
+				if fn := cG.Callee(call); fn != nil && fn.Pkg() == pkgG.Types {
+					for _, d := range load.AllFuncDecls(pkgG) {
+						if cG.Info.Defs[d.Name] == types.Object(fn) && d.Body != nil && d != fdI {
+							scan = append(scan, d.Body)
+						}
 					}
-				}
-			case *ast.IfStmt:
-				if be, ok := x.Cond.(*ast.BinaryExpr); ok && be.Op == token.EQL {
-					if lit, ok := schema.StringLit(be.Y); ok && lit == "." {
-						body = x.Body.List
-					}
-				}
-			}
-			for _, st := range body {
-				if strings.Contains(stmtNorm(cG, st), "unsupported dot-import") {
-					dotTied = true
 				}
 			}
 			return true
 		})
+		for _, root := range scan {
+			ast.Inspect(root, func(n ast.Node) bool {
+				var body []ast.Stmt
+				switch x := n.(type) {
+				case *ast.CaseClause:
+					for _, v := range x.List {
+						if lit, ok := schema.StringLit(v); ok && lit == "." {
+							body = x.Body
+						}
+					}
+				case *ast.IfStmt:
+					if be, ok := x.Cond.(*ast.BinaryExpr); ok && be.Op == token.EQL {
+						if lit, ok := schema.StringLit(be.Y); ok && lit == "." {
+							body = x.Body.List
+						}
+					}
+				}
+				for _, st := range body {
+					if strings.Contains(stmtNorm(cG, st), "unsupported dot-import") {
+						dotTied = true
+					}
+				}
+				return true
+			})
+		}
 	}
 	e.Run.Check("R-RESOLVER", "goast.imports: the dot-import error is raised exactly for the name \".\"", "", dotTied, "no branch on name == \".\" that produces the dot-import error")
 }
@@ -1053,29 +1102,102 @@ func (e *Env) goastImports() {
 		e.Run.Violation("R-RESOLVER", "goast.imports: the scan has an *ast.ImportSpec arm", e.Prog.Pos(lit.Pos()), "missing")
 		return
 	}
-	undo := c.InstallReachingIn(lit.Body)
-	defer undo()
 	type asg struct {
 		lhs, rhs, cond string
 		pos            token.Pos
 	}
 	var asgs []asg
 	undecided := false
+	// the code that handles one import spec: the arm itself, or a same-package helper the arm
+	// hands the spec to (then a refusal is a return with a non-nil error instead of a store into
+	// the captured error variable, and the helper's parameters stand for the caller's arguments)
+	body := arm.Body
+	var helper *ast.FuncDecl
+	var helperCall *ast.CallExpr
 	for _, st := range arm.Body {
 		ast.Inspect(st, func(n ast.Node) bool {
-			as, ok := n.(*ast.AssignStmt)
-			if !ok || len(as.Lhs) != len(as.Rhs) || as.Tok == token.DEFINE {
+			call, ok := n.(*ast.CallExpr)
+			if !ok || helper != nil {
 				return true
 			}
-			for i, l := range as.Lhs {
-				cond, okc := pathCond(c, arm.Body, as)
-				if !okc {
-					undecided = true
+			fn := c.Callee(call)
+			if fn == nil || fn.Pkg() != pkg.Types || fn.Name() == "mustUnquote" {
+				return true
+			}
+			for _, d := range load.AllFuncDecls(pkg) {
+				if c.Info.Defs[d.Name] == types.Object(fn) && d.Body != nil {
+					stores := false
+					ast.Inspect(d.Body, func(m ast.Node) bool {
+						if as, ok := m.(*ast.AssignStmt); ok {
+							for _, l := range as.Lhs {
+								if ix, ok := l.(*ast.IndexExpr); ok {
+									if _, isMap := c.Info.TypeOf(ix.X).Underlying().(*types.Map); isMap {
+										stores = true
+									}
+								}
+							}
+						}
+						return true
+					})
+					if stores {
+						helper, helperCall = d, call
+					}
 				}
-				if cond == "" {
-					cond = "true"
+			}
+			return true
+		})
+	}
+	var undo func()
+	if helper != nil {
+		body = helper.Body.List
+		undo = c.InstallReaching(helper)
+		// parameters print as the caller's arguments
+		if c.Subst == nil {
+			c.Subst = map[types.Object]ast.Expr{}
+		}
+		k := 0
+		for _, p := range helper.Type.Params.List {
+			for _, nm := range p.Names {
+				if k < len(helperCall.Args) {
+					c.Subst[c.Info.Defs[nm]] = helperCall.Args[k]
 				}
-				asgs = append(asgs, asg{c.ExprStr(l), c.ExprStr(as.Rhs[i]), cond, as.Pos()})
+				k++
+			}
+		}
+		defer func() { c.Subst = nil }()
+	} else {
+		undo = c.InstallReachingIn(lit.Body)
+	}
+	defer undo()
+	for _, st := range body {
+		ast.Inspect(st, func(n ast.Node) bool {
+			switch x := n.(type) {
+			case *ast.AssignStmt:
+				if len(x.Lhs) != len(x.Rhs) || x.Tok == token.DEFINE {
+					return true
+				}
+				for i, l := range x.Lhs {
+					cond, okc := pathCond(c, body, x)
+					if !okc {
+						undecided = true
+					}
+					if cond == "" {
+						cond = "true"
+					}
+					asgs = append(asgs, asg{c.ExprStr(l), c.ExprStr(x.Rhs[i]), cond, x.Pos()})
+				}
+			case *ast.ReturnStmt:
+				// helper form: `return false, E` is the refusal `outer = E`
+				if helper != nil && len(x.Results) == 2 && c.ExprStr(x.Results[1]) != "nil" {
+					cond, okc := pathCond(c, body, x)
+					if !okc {
+						undecided = true
+					}
+					if cond == "" {
+						cond = "true"
+					}
+					asgs = append(asgs, asg{"outer", c.ExprStr(x.Results[1]), cond, x.Pos()})
+				}
 			}
 			return true
 		})
@@ -1351,6 +1473,29 @@ func (e *Env) RQuietRearrange() {
 					check(x, "the block is re-sorted")
 				}
 			}
+			// a same-package helper that sets the parens of the block it is given
+			if fn := c.Callee(x); fn != nil && fn.Pkg() == pkg.Types {
+				for _, h := range load.AllFuncDecls(pkg) {
+					if info.Defs[h.Name] != types.Object(fn) || h.Body == nil || h == fd {
+						continue
+					}
+					sets := false
+					ast.Inspect(h.Body, func(m ast.Node) bool {
+						if as, ok := m.(*ast.AssignStmt); ok {
+							for _, l := range as.Lhs {
+								if hs, ok := l.(*ast.SelectorExpr); ok && (hs.Sel.Name == "Lparen" || hs.Sel.Name == "Rparen") && isGenDecl(hs.X) {
+									sets = true
+								}
+							}
+						}
+						return true
+					})
+					if sets {
+						check(x, "the block's parens are rewritten (by "+h.Name.Name+")")
+						n++ // Lparen and Rparen
+					}
+				}
+			}
 		case *ast.AssignStmt:
 			for _, l := range x.Lhs {
 				se, ok := l.(*ast.SelectorExpr)
@@ -1361,10 +1506,8 @@ func (e *Env) RQuietRearrange() {
 				case (se.Sel.Name == "Lparen" || se.Sel.Name == "Rparen") && isGenDecl(se.X):
 					check(x, "the block's "+se.Sel.Name+" is rewritten")
 				case se.Sel.Name == "Before" || se.Sel.Name == "After":
-					if cl, ok := se.X.(*ast.CallExpr); ok {
-						if fn := c.Callee(cl); fn != nil && fn.Name() == "Decorations" {
-							check(x, "a spec's "+se.Sel.Name+" spacing is rewritten")
-						}
+					if strings.Contains(c.ExprStr(se), ".Decorations().") {
+						check(x, "a spec's "+se.Sel.Name+" spacing is rewritten")
 					}
 				}
 			}
@@ -1373,4 +1516,27 @@ func (e *Env) RQuietRearrange() {
 	})
 	e.Run.Analysed("import block rearrangements", n)
 	e.Run.Floor("R-QUIET", "import block rearrangements in updateImports", n, 4)
+}
+
+// firstResultOf: o is a local defined as the first result of a call to the closure fnObj in fd.
+func firstResultOf(info *types.Info, c *schema.Ctx, fd *ast.FuncDecl, fnObj, o types.Object) bool {
+	found := false
+	ast.Inspect(fd.Body, func(n ast.Node) bool {
+		as, ok := n.(*ast.AssignStmt)
+		if !ok || len(as.Rhs) != 1 || len(as.Lhs) < 1 {
+			return true
+		}
+		call, ok := as.Rhs[0].(*ast.CallExpr)
+		if !ok {
+			return true
+		}
+		if fid, ok := call.Fun.(*ast.Ident); !ok || c.ObjOf(fid) != fnObj {
+			return true
+		}
+		if id, ok := as.Lhs[0].(*ast.Ident); ok && c.ObjOf(id) == o && o != nil {
+			found = true
+		}
+		return true
+	})
+	return found
 }
